@@ -143,3 +143,72 @@ package props
 // di.NewPropContainer() and passes the result as `propContainer`; every entry is a built-in function.
 //@ spec macro pcEntry(m map[string]object.PanObject, k string) bool = has(m, k) && isT(m[k], *object.PanBuiltIn) && as(m[k], *object.PanBuiltIn).Fn != nil
 //@ paraminv propContainer: pcEntry(propContainer, "Arr_at") && pcEntry(propContainer, "BaseObj_at") && pcEntry(propContainer, "Func_call") && pcEntry(propContainer, "Int_at") && pcEntry(propContainer, "Iter_new") && pcEntry(propContainer, "Iter_next") && pcEntry(propContainer, "Map_at") && pcEntry(propContainer, "Obj_callProp") && pcEntry(propContainer, "Str_at") && pcEntry(propContainer, "Str_eval") && pcEntry(propContainer, "Str_evalEnv") && pcEntry(propContainer, "Kernel_import") && pcEntry(propContainer, "Kernel_invite!")
+//
+// ---- C12: the per-type B built-ins (closed forms) ----------------------------------------------
+//@ props C12
+//@ func props.IntProps["B"](env, kwargs, args) res
+//@   requires argsOK(args)
+//@   let a := traceInt(args[0])
+//@   let n := len(args)
+//@   ensures n >= 1 && a != nil ==> res == (a.Value == 0 ? object.BuiltInFalse : object.BuiltInTrue)
+//@   assigns nothing
+//@ func props.StrProps["B"](env, kwargs, args) res
+//@   requires argsOK(args)
+//@   let a := traceStr(args[0])
+//@   let n := len(args)
+//@   ensures n >= 1 && a != nil ==> res == (a.Value == "" ? object.BuiltInFalse : object.BuiltInTrue)
+//@   assigns nothing
+//@ func props.ArrProps["B"](env, kwargs, args) res
+//@   requires argsOK(args)
+//@   let a := traceArr(args[0])
+//@   let n := len(args)
+//@   ensures n >= 1 && a != nil ==> res == (len(a.Elems) == 0 ? object.BuiltInFalse : object.BuiltInTrue)
+//@   assigns nothing
+//@ func props.NilProps["B"](env, kwargs, args) res
+//@   requires argsOK(args)
+//@   let a := traceNil(args[0])
+//@   let n := len(args)
+//@   ensures n >= 1 && a != nil ==> res == object.BuiltInFalse
+//@   assigns nothing
+//@ func props.ObjProps["B"](env, kwargs, args) res
+//@   requires argsOK(args)
+//@   let a := traceObj(args[0])
+//@   let n := len(args)
+//@   let empty := len(*a.Pairs) == 0
+//@   ensures n >= 1 && a != nil ==> res == (empty ? object.BuiltInFalse : object.BuiltInTrue)
+//@   assigns nothing
+//@ func props.MapProps["B"](env, kwargs, args) res
+//@   requires argsOK(args)
+//@   let a := traceMap(args[0])
+//@   let n := len(args)
+//@   let empty := len(*a.Pairs) == 0 && len(*a.NonHashablePairs) == 0
+//@   ensures n >= 1 && a != nil ==> res == (empty ? object.BuiltInFalse : object.BuiltInTrue)
+//@   assigns nothing
+//@ func props.FloatProps["B"](env, kwargs, args) res
+//@   requires argsOK(args)
+//@   let a := traceFloat(args[0])
+//@   let n := len(args)
+//@   ensures n >= 1 && a != nil ==> res == object.BuiltInFalse || res == object.BuiltInTrue
+//@   assigns nothing
+//@ func props.RangeProps["B"](env, kwargs, args) res
+//@   requires argsOK(args)
+//@   let a := traceRange(args[0])
+//@   let n := len(args)
+//@   ensures n >= 1 && a != nil ==> res == object.BuiltInTrue
+//@   assigns nothing
+//@ func props.IterProps["B"](env, kwargs, args) res
+//@   requires argsOK(args)
+//@   ensures len(args) >= 1 ==> res == object.BuiltInTrue
+//@   assigns nothing
+//@ func props.FuncProps["B"](env, kwargs, args) res
+//@   requires argsOK(args)
+//@   let f := traceFunc(args[0])
+//@   let b := traceBuiltInFunc(args[0])
+//@   let n := len(args)
+//@   ensures n >= 1 && (f != nil || b != nil) ==> res == object.BuiltInTrue
+//@   assigns nothing
+//
+// `!x`: the negation of x's B
+//@ func props.ObjProps["!"](env, kwargs, args) res
+//@   requires argsOK(args) && env != nil && kwargs != nil
+//@   ensures len(args) >= 1 ==> ncalls == 1 && called(0, "object.BuiltInFunc") && res == (result(0) == object.BuiltInTrue ? object.BuiltInFalse : object.BuiltInTrue)
